@@ -148,7 +148,7 @@ def sink_bytes(ev, name):
 
 
 def run_vdrive(build, script_text, work, *, asan=False, mtx=True, heap=False, timeout=120, env_extra=None,
-               repo_count=True, strace=None, keep=False, exe=None):
+               repo_count=True, strace=None, keep=False, exe=None, preload=None):
     """Runs one script in one vdrive process. `work` is a private directory (created if needed)."""
     os.makedirs(work, exist_ok=True)
     os.chmod(work, 0o777)
@@ -162,6 +162,9 @@ def run_vdrive(build, script_text, work, *, asan=False, mtx=True, heap=False, ti
     if os.path.exists(lpath):
         os.unlink(lpath)
     pre = [build.lib, os.path.join(HBIN, "libvrec.so")]
+    if preload is not None:
+        pre = list(preload)
+        mtx = heap = False
     if mtx and not asan:
         pre.append(os.path.join(HBIN, "libvmtx.so"))
     if heap and not asan:
@@ -172,7 +175,7 @@ def run_vdrive(build, script_text, work, *, asan=False, mtx=True, heap=False, ti
         "LD_PRELOAD": " ".join(pre),
         "TZ": "UTC",
     }
-    if repo_count:
+    if repo_count and preload is None:
         off = getattr(build, "_repo_off", None)
         if off is None:
             off = build.sym_offset("snoopy_tsrm_threadRepo_data")
@@ -212,10 +215,16 @@ def run_vdrive(build, script_text, work, *, asan=False, mtx=True, heap=False, ti
     if p.returncode is not None and p.returncode < 0:
         res.signal = -p.returncode
     res.events = parse_log(lpath)
+    res.san_by_pid = {}
     for f in sorted(glob.glob(os.path.join(work, "san.*"))):
         try:
             with open(f, "r", errors="replace") as fh:
-                res.san.append(fh.read())
+                txt = fh.read()
+                res.san.append(txt)
+                try:
+                    res.san_by_pid[int(f.rsplit(".", 1)[1])] = txt
+                except ValueError:
+                    pass
         except OSError:
             pass
         if not keep:
